@@ -4,7 +4,7 @@ from ..contracts_api import ContractDB
 
 def build_db():
     db = ContractDB()
-    from . import render, html, attrs, children, helpers, tagify, hooks, document, serial, jsx
+    from . import render, html, attrs, children, helpers, tagify, hooks, document, serial, jsx, paths
     render.register(db)
     html.register(db)
     attrs.register(db)
@@ -15,6 +15,7 @@ def build_db():
     document.register(db)
     serial.register(db)
     jsx.register(db)
+    paths.register(db)
     return db
 
 
